@@ -61,7 +61,15 @@ def _names_hint(hint_repr, msg):
         return True
     need = collections.Counter(_TOKEN.findall(hint_repr))
     have = collections.Counter(_TOKEN.findall(msg))
-    return not (need - have)
+    if not (need - have):
+        return True
+    # equal unions have three spellings (typing.Optional[X], typing.Union[X, None], X | None) and beartype may print the
+    # equal one it saw first: the words that only spell the union are not compared
+    if 'Optional[' in hint_repr or 'Union[' in hint_repr or ' | ' in hint_repr:
+        for word in ('typing', 'Optional', 'Union', 'None'):
+            need.pop(word, None)
+        return not (need - have)
+    return False
 
 
 def _culprit_ok(c0, x):
@@ -102,7 +110,7 @@ def run_case(case):
         hint_repr = None
     for r in draws_for(vast, case.get('extra_draws', ()))[:10]:
         verdicts = {}
-        for ep in E.ENTRY_POINTS:
+        for ep in E.entry_points_for(node):
             res = E.call_entry(ep, node, vast, spec, r)
             evals += 1
             exp = E.expected_violation_class(spec, ep)
